@@ -43,18 +43,24 @@ Proof.
   - specialize (IH H). destruct (refers b h); unfold bz; lia.
 Qed.
 
+Lemma cnt_zero_notin b l : cnt b l = 0 -> forall o, ~ In (VLive (HBlock b) o) l.
+Proof. intros H o I. apply in_cnt_pos in I. lia. Qed.
+
 (* ---- the invariant ----------------------------------------------------------------------- *)
-(* [adj b] = counted references to b held by the operation in progress, not (yet / any more)
-   stored in a variable.  Between operations adj = zero. *)
+(* [adj b] = counted references to b held by the operation in progress and not stored in a
+   variable (positive), or stored in a variable whose count was already given back (negative).
+   Between operations adj = zero. *)
 Record wf (s : state) (adj : nat -> Z) : Prop := {
   wf_flt : flt s = None;
-  wf_adj : forall b, 0 <= adj b;
   wf_blk : forall b, (b < length (heap s))%nat ->
       (freed (getb s b) = true -> cnt b (vars s) + adj b = 0 /\ dtors (getb s b) = 1%nat) /\
       (freed (getb s b) = false -> rc (getb s b) = cnt b (vars s) + adj b /\ 1 <= rc (getb s b) /\ dtors (getb s b) = 0%nat);
   wf_out : forall b, (length (heap s) <= b)%nat -> cnt b (vars s) + adj b = 0 }.
 
 Definition live (s : state) (b : nat) : Prop := (b < length (heap s))%nat /\ freed (getb s b) = false.
+
+(* both pointer fields of a handle denote the same object (String/Variant have one field) *)
+Definition coh (s : state) : Prop := forall v r o, getv s v = VLive r o -> r = o.
 
 Lemma held_live s adj b : wf s adj -> 0 < cnt b (vars s) + adj b -> live s b.
 Proof.
@@ -63,6 +69,19 @@ Proof.
     destruct (wf_blk _ _ W b L) as [A _]. specialize (A E). lia.
   - pose proof (wf_out _ _ W b L). lia.
 Qed.
+
+Lemma live_rc s adj b : wf s adj -> live s b -> rc (getb s b) = cnt b (vars s) + adj b /\ 1 <= rc (getb s b).
+Proof. intros W [L F]. destruct (wf_blk _ _ W b L) as [_ A]. destruct (A F) as (A1 & A2 & _). split; assumption. Qed.
+
+Lemma getv_in s v r o : getv s v = VLive r o -> In (VLive r o) (vars s).
+Proof.
+  unfold getv. intros H. destruct (Nat.lt_ge_cases v (length (vars s))) as [L|L].
+  - rewrite <- H. apply nth_In. exact L.
+  - rewrite nth_overflow in H by exact L. discriminate.
+Qed.
+
+Lemma getv_cnt s v b o : getv s v = VLive (HBlock b) o -> 0 < cnt b (vars s).
+Proof. intros H. eapply in_cnt_pos. eapply getv_in. exact H. Qed.
 
 (* ---- basic facts about the primitives -------------------------------------------------------- *)
 Lemma getb_setb_same s b k : (b < length (heap s))%nat -> getb (setb s b k) b = k.
@@ -80,13 +99,31 @@ Proof. unfold bump. rewrite Nat.eqb_refl. reflexivity. Qed.
 Lemma bump_other adj b d c : c <> b -> bump adj b d c = adj c.
 Proof. intros H. unfold bump. destruct (Nat.eqb c b) eqn:E; [apply Nat.eqb_eq in E; contradiction|reflexivity]. Qed.
 
+Lemma vars_raise s x : vars (raise s x) = vars s.
+Proof. unfold raise. destruct (flt s); reflexivity. Qed.
+Lemma vars_touch s b : vars (touch s b) = vars s.
+Proof. unfold touch. destruct (freed (getb s b)); [apply vars_raise|reflexivity]. Qed.
+Lemma vars_inc s b : vars (inc s b) = vars s.
+Proof. unfold inc. cbn [vars setb]. apply vars_touch. Qed.
+Lemma vars_free s b : vars (free_blk s b) = vars s.
+Proof. unfold free_blk. destruct (freed (getb s b)); [apply vars_raise|reflexivity]. Qed.
+Lemma vars_release f s h : vars (release f s h) = vars s.
+Proof.
+  destruct h as [|b]; [reflexivity|]. unfold release.
+  destruct (is_ptr f || negb (rc (getb (touch s b) b) =? 0)); [|apply vars_touch].
+  unfold dec. cbn zeta.
+  match goal with |- context [if ?c =? 0 then _ else _] => destruct (c =? 0) end;
+  [rewrite vars_free|]; cbn [vars setb];
+  match goal with |- context [if ?c then _ else _] => destruct c end;
+  rewrite ?vars_raise, !vars_touch; reflexivity.
+Qed.
+
 Lemma wf_inc s adj b : wf s adj -> live s b -> wf (inc s b) (bump adj b 1).
 Proof.
   intros W [L F]. unfold inc. rewrite (touch_live _ _ F).
   destruct (wf_blk _ _ W b L) as [_ A]. specialize (A F). destruct A as (A1 & A2 & A3).
   constructor.
   - simpl. apply (wf_flt _ _ W).
-  - intros c. pose proof (wf_adj _ _ W c). unfold bump. destruct (Nat.eqb c b); lia.
   - intros c Lc. rewrite len_setb in Lc. simpl vars.
     destruct (Nat.eq_dec c b) as [->|N].
     + rewrite getb_setb_same by exact L. rewrite bump_same. simpl. split; [intros E; congruence|].
@@ -95,10 +132,10 @@ Proof.
   - intros c Lc. rewrite len_setb in Lc. simpl vars. rewrite bump_other by lia. apply (wf_out _ _ W c Lc).
 Qed.
 
-Lemma wf_release f s adj b : wf s adj -> 1 <= adj b -> wf (release f s (HBlock b)) (bump adj b (-1)).
+Lemma wf_release f s adj b : wf s adj -> 1 <= cnt b (vars s) + adj b -> wf (release f s (HBlock b)) (bump adj b (-1)).
 Proof.
   intros W H.
-  assert (LV : live s b) by (apply (held_live s adj b W); pose proof (cnt_nonneg b (vars s)); lia).
+  assert (LV : live s b) by (apply (held_live s adj b W); lia).
   destruct LV as [L F].
   destruct (wf_blk _ _ W b L) as [_ A]. specialize (A F). destruct A as (A1 & A2 & A3).
   unfold release. rewrite (touch_live _ _ F).
@@ -112,7 +149,6 @@ Proof.
   - apply Z.eqb_eq in EZ. unfold free_blk. rewrite G2. simpl freed. rewrite F.
     constructor.
     + simpl. apply (wf_flt _ _ W).
-    + intros c. pose proof (wf_adj _ _ W c). unfold bump. destruct (Nat.eqb c b) eqn:E; [apply Nat.eqb_eq in E; subst|]; lia.
     + intros c Lc. rewrite len_setb in Lc. unfold s2 in Lc. rewrite len_setb in Lc. simpl vars.
       destruct (Nat.eq_dec c b) as [->|N].
       * rewrite getb_setb_same by (unfold s2; rewrite len_setb; exact L). rewrite bump_same. simpl.
@@ -124,7 +160,6 @@ Proof.
   - apply Z.eqb_neq in EZ.
     constructor.
     + simpl. apply (wf_flt _ _ W).
-    + intros c. pose proof (wf_adj _ _ W c). unfold bump. destruct (Nat.eqb c b) eqn:E; [apply Nat.eqb_eq in E; subst|]; lia.
     + intros c Lc. unfold s2 in Lc. rewrite len_setb in Lc. simpl vars.
       destruct (Nat.eq_dec c b) as [->|N].
       * rewrite G2. rewrite bump_same. simpl. split; [intros E; congruence|]. intros _. lia.
@@ -133,26 +168,17 @@ Proof.
       rewrite bump_other by lia. apply (wf_out _ _ W c Lc).
 Qed.
 
-Lemma wf_release_h f s adj h :
-  wf s adj -> (forall b, h = HBlock b -> 1 <= adj b) ->
-  wf (release f s h) (match h with HBlock b => bump adj b (-1) | HNone => adj end).
-Proof.
-  intros W H. destruct h as [|b]; [exact W|]. apply wf_release; [exact W|]. apply H. reflexivity.
-Qed.
-
 Lemma getb_app_old h k b fl vs : (b < length h)%nat ->
   getb {| heap := h ++ [k]; vars := vs; flt := fl |} b = nth b h dead_block.
 Proof. intros H. unfold getb; simpl. apply app_nth1. exact H. Qed.
 
 Lemma wf_alloc s adj l c : wf s adj ->
-  wf (fst (alloc s 1 l c)) (bump adj (length (heap s)) 1) /\ snd (alloc s 1 l c) = length (heap s).
+  wf (fst (alloc s 1 l c)) (bump adj (length (heap s)) 1).
 Proof.
-  intros W. split; [|reflexivity]. unfold alloc; simpl fst.
+  intros W. unfold alloc; simpl fst.
   pose proof (wf_out _ _ W (length (heap s)) (Nat.le_refl _)) as O.
-  pose proof (wf_adj _ _ W (length (heap s))) as A0. pose proof (cnt_nonneg (length (heap s)) (vars s)) as C0.
   constructor.
   - simpl. apply (wf_flt _ _ W).
-  - intros b. pose proof (wf_adj _ _ W b). unfold bump. destruct (Nat.eqb b (length (heap s))); lia.
   - intros b Lb. simpl heap in Lb. rewrite app_length in Lb. simpl in Lb. simpl vars.
     destruct (Nat.eq_dec b (length (heap s))) as [->|N].
     + unfold getb; simpl heap. rewrite app_nth2 by lia. rewrite Nat.sub_diag. simpl.
@@ -164,15 +190,13 @@ Qed.
 
 Lemma wf_setv s adj adj' v x : wf s adj -> (v < length (vars s))%nat ->
   (forall b, adj' b = adj b + bz (refers b (getv s v)) - bz (refers b x)) ->
-  (forall b, 0 <= adj' b) ->
   wf (setv s v x) adj'.
 Proof.
-  intros W Lv HA HP.
+  intros W Lv HA.
   assert (E : forall b, cnt b (vars (setv s v x)) + adj' b = cnt b (vars s) + adj b).
   { intros b. simpl. rewrite cnt_upd by exact Lv. rewrite (HA b). unfold getv. lia. }
   constructor.
   - simpl. apply (wf_flt _ _ W).
-  - exact HP.
   - intros b Lb. rewrite E. exact (wf_blk _ _ W b Lb).
   - intros b Lb. rewrite E. exact (wf_out _ _ W b Lb).
 Qed.
@@ -181,7 +205,6 @@ Lemma wf_ext s adj adj' : wf s adj -> (forall b, adj' b = adj b) -> wf s adj'.
 Proof.
   intros W H. constructor.
   - apply (wf_flt _ _ W).
-  - intros b. rewrite H. apply (wf_adj _ _ W).
   - intros b Lb. rewrite H. apply (wf_blk _ _ W b Lb).
   - intros b Lb. rewrite H. apply (wf_out _ _ W b Lb).
 Qed.
@@ -195,10 +218,15 @@ Proof.
   rewrite C. simpl Nat.eqb. cbv iota.
   constructor.
   - simpl. apply (wf_flt _ _ W).
-  - intros c. unfold zero. lia.
   - intros c Lc. rewrite len_setb in Lc. simpl vars.
     destruct (Nat.eq_dec c b) as [->|N].
     + rewrite getb_setb_same by exact L. simpl. rewrite F. split; [intros E; discriminate|]. intros _. lia.
     + rewrite getb_setb_other by congruence. apply (wf_blk _ _ W c Lc).
   - intros c Lc. rewrite len_setb in Lc. simpl vars. apply (wf_out _ _ W c Lc).
+Qed.
+
+Lemma vars_write_inplace s b n : vars (write_inplace s b n) = vars s.
+Proof.
+  unfold write_inplace. cbn [vars setb].
+  match goal with |- context [if ?c then _ else _] => destruct c end; rewrite ?vars_raise, !vars_touch; reflexivity.
 Qed.
